@@ -148,13 +148,13 @@ func assertASTIsVarAssignBlock(ast *syntax.Program) ([]*syntax.VarAssignExpr, bo
 // 令销量 = 300
 // 输出客单价 * 销量  ->  8400
 func ExecVarInputText(source string) (r.ElementMap, error) {
-	vm := r.InitVM(globalValues)
+	vm := r.InitVM(NewGlobalValues())
 
 	return evalVarAssignBlockText(vm, source)
 }
 
 func ExecExpressionInputText(exprStrMap map[string]string) (r.ElementMap, error) {
-	vm := r.InitVM(globalValues)
+	vm := r.InitVM(NewGlobalValues())
 	result := make(map[string]r.Element)
 	for k, v := range exprStrMap {
 		evalResult, err := evalExpressionText(vm, v)
